@@ -330,7 +330,7 @@ def do_mop(env, st, i):
     m0 = maps[0]
     if name == 'divide_intersection':
         want_dt = 'float64'
-        want_sent = Fraction(meta0.sent)
+        want_sent = frac(float(meta0.sent))       # the first map's sentinel expressed in float64
     else:
         want_dt = np.dtype(m0.dtype).name
         want_sent = meta0.sent
@@ -351,7 +351,9 @@ def expected_degrade_meta(m, meta, nside_out, red):
     if meta.kind == 'wide':
         return ('wide', 'uint8', Fraction(0))
     if meta.kind == 'rec':
-        return ('rec', 'rec', UNSEEN_F)
+        pt = np.dtype(m.dtype[m.primary])
+        pt_out = np.float64 if pt.kind in 'iu' else pt.type
+        return ('rec', 'rec', frac(pt_out(UNSEEN)))
     dt = np.dtype(m.dtype)
     if dt.kind in 'iu' and red in ('and', 'or'):
         return ('plain', dt.name, meta.sent)
@@ -361,7 +363,7 @@ def expected_degrade_meta(m, meta, nside_out, red):
 
 
 def set_tolerance(meta, m_src, red):
-    exact = red in ('max', 'min', 'and', 'or', 'sum', 'prod')
+    exact = red in ('max', 'min', 'and', 'or', 'sum')
     if not exact:
         f32 = False
         if m_src.dtype.fields is None:
@@ -375,12 +377,12 @@ def set_tolerance(meta, m_src, red):
                 a = arr.copy()
                 for f in meta.fields:
                     col = a[f].astype(np.float64)
-                    ok = col != UNSEEN
+                    ok = (col != UNSEEN) & (col != np.float64(np.float32(UNSEEN)))
                     col[ok] = col[ok] ** 2
                     a[f] = col
                 return a
             a = np.asarray(arr).astype(np.float64)
-            ok = a != UNSEEN
+            ok = (a != UNSEEN) & (a != np.float64(np.float32(UNSEEN)))
             a[ok] = a[ok] ** 2
             return a
         meta.transform = tr
@@ -413,6 +415,10 @@ def do_degrade(env, st, i):
         pairs.append(([[24], [h], [out]], expect_ok(i, 'degrade-copy')))
         return pairs
     kind, dtn, sent = expected_degrade_meta(m, meta, nside_out, red)
+    if red == 'wmean' and w is not None and kind == 'plain':
+        # x * weights: NumPy type promotion of the (float) working type with the weights' type
+        rdt = np.result_type(np.dtype(dtn), np.dtype(w.dtype))
+        dtn, sent = rdt.name, frac(rdt.type(UNSEEN))
     nc_out = min(m.nside_coverage, nside_out)
     got = (res.nside_coverage, res.nside_sparse, nm.kind, 'rec' if nm.kind == 'rec' else np.dtype(res.dtype).name, nm.sent)
     pairs += meta_check(i, 'degrade', got, (nc_out, nside_out, kind, dtn, sent))
@@ -444,7 +450,15 @@ def do_degrade(env, st, i):
                 pairs.append(([[22], [hw], [9101], [meta.ncov, meta.nfine], [1], b2c], expect_ok(i, 'rehouse-w')))
                 w_h = 9101
     use_w = w_h if (hw is not None and red == 'wmean') else -1
-    pairs.append(([[20], [src_h], [out], [r, RED[red]], ktoks(nm), [use_w]], expect_ok(i, 'degrade')))
+    # the blank of the result by the documented rule: the output sentinel in every field's output type
+    if kind == 'rec':
+        btoks = []
+        for n in m.dtype.names:
+            ft = np.float64 if np.dtype(m.dtype[n]).kind in 'iu' else np.dtype(m.dtype[n]).type
+            btoks += qtok(ft(UNSEEN))
+    else:
+        btoks = [sent.numerator, sent.denominator]
+    pairs.append(([[20], [src_h], [out], [r, RED[red]], ktoks(nm), [use_w], btoks], expect_ok(i, 'degrade')))
     return pairs
 
 
@@ -506,7 +520,17 @@ def do_rng(env, st, i):
         flat = []
         for a, b in rows:
             flat += [a, b]
-        return [([[23], [h], [h], [hsops.OPCODE[op], na], flat, toks], expect_ok(i, 'rng'))]
+        cm = [int(b) for b in m.coverage_mask]
+
+        def cmp(res, cm=cm):
+            if res[0][0] != 1:
+                return [dict(step=i, what='rng: model rejected', layer='L1', impl='ok', model=res[0])]
+            need = res[1]
+            if any(n and not c for n, c in zip(need, cm)):
+                return [dict(step=i, what='coverage mask after a range update does not contain the needed coverage',
+                             layer='L0', impl=cm, model=need)]
+            return []
+        return [([[23], [h], [h], [hsops.OPCODE[op], na], flat, toks], cmp)]
     pixels = []
     for a, b in rows:
         pixels += list(range(a, b))
@@ -654,12 +678,19 @@ def do_vwrite(env, st, i):
     mop = [[27], [h], [h], [j, fs.numerator, fs.denominator], pixels, toks]
 
     def cmp(res, raised=raised):
-        model_raised = (res[0][0] != 1)
-        if model_raised and raised is None:
-            return [dict(step=i, what='write of a new pixel through a field view was accepted', layer='L0', impl='ok', model='RAISED')]
-        if (not model_raised) and raised is not None:
-            return [dict(step=i, what='write through a field view to valid pixels raised: ' + raised, layer='L0', impl='RAISED', model='ok')]
-        return []
+        l1_raises, l0_raises = bool(res[1][0]), bool(res[1][1])
+        mm = []
+        if l1_raises != (raised is not None):
+            mm.append(dict(step=i, what='write through a field view: implementation %s, L1 model %s'
+                           % ('raised' if raised else 'accepted', 'raises' if l1_raises else 'accepts'),
+                           layer='L1', impl=raised, model=l1_raises))
+        if l0_raises and raised is None:
+            mm.append(dict(step=i, what='write through a field view to a pixel that is invalid in the parent was accepted',
+                           layer='L0', impl='ok', model='RAISED'))
+        if (not l0_raises) and raised is not None:
+            mm.append(dict(step=i, what='write through a field view to valid pixels raised: ' + raised, layer='L0',
+                           impl='RAISED', model='ok'))
+        return mm
     return [(mop, cmp)]
 
 
